@@ -54,6 +54,8 @@ type SequenceTracker[
 	initErr   error
 	sequences *SyncMap[doltdb.TableName, StateType]
 	mm        *mutexmap.MutexMap
+	// nm serializes Next in the lock modes in which Next does not take |mm| itself.
+	nm *mutexmap.MutexMap
 	// initMu guards |init| against concurrent callers of InitWithRoots.
 	initMu sync.Mutex
 	// SequenceTracker is lazily initialized by loading
@@ -101,6 +103,7 @@ func NewSequenceTrackerFromRoots[
 		dbName:         dbName,
 		sequences:      &SyncMap[doltdb.TableName, StateType]{},
 		mm:             mutexmap.NewMutexMap(),
+		nm:             mutexmap.NewMutexMap(),
 		init:           make(chan struct{}),
 		cancelInit:     make(chan struct{}),
 		relationSource: relationSource,
@@ -222,6 +225,13 @@ func (a *SequenceTracker[RelationType, StateType, ValueType]) Next(ctx *sql.Cont
 		release := a.mm.Lock(relationName)
 		defer release()
 		locked = true
+	} else {
+		// In the other lock modes the engine holds |mm| for the whole statement (AcquireLock) - but only
+		// for statements that have at least one value to generate. A statement that inserts explicit
+		// values only gets here without it, beside a statement that holds it, so the read-modify-write
+		// is serialized on a lock of its own.
+		release := a.nm.Lock(relationName)
+		defer release()
 	}
 
 	currState, ok := loadSequenceState(a.sequences, relationName)
